@@ -150,6 +150,11 @@ def run(ctx, case):
         m.write(config)
     except Exception:
         pass
+    if ctx.cur_k is not None and ctx.cur_k % 4 == 2:
+        try:
+            m.write(config, no_sample_default=b"02")   # the documented option for objects without a known sample
+        except Exception:
+            pass
     if case["cls"] == "write_edit_write":
         # the same chart object, tempo doubled in place (times halved), written again
         try:
